@@ -223,9 +223,11 @@ def load_prop(prop):
     return importlib.import_module(f"vf.props.{prop.lower()}")
 
 
-def run_shard(prop, tier, seed, shard, nshards):
+def run_shard(prop, tier, seed, shard, nshards, on_ctx=None):
     mod = load_prop(prop)
     ctx = Ctx(prop, tier, seed, shard, nshards)
+    if on_ctx is not None:
+        on_ctx(ctx)
     try:
         check_repo_binding()
         mod.run(ctx)
@@ -254,7 +256,25 @@ def main(argv):
         i, n = map(int, rest[1].split("/"))
         tier = rest[2]
         out = rest[3]
-        ctx = run_shard(prop, tier, seed, i, n)
+        def snapshots(ctx):
+            # what this shard has observed so far, refreshed every 15 s: if the parent has to kill the shard at its time limit
+            # (e.g. a change that makes every case slower and slower) the violations seen until then are not lost
+            import threading
+
+            def loop():
+                while True:
+                    time.sleep(15)
+                    for _ in range(5):
+                        try:
+                            blob = pickle.dumps(ctx.dump())
+                        except Exception:
+                            continue  # the main thread changed a dict meanwhile: try again
+                        with open(out + ".partial.tmp", "wb") as f:
+                            f.write(blob)
+                        os.replace(out + ".partial.tmp", out + ".partial")
+                        break
+            threading.Thread(target=loop, daemon=True, name="verif-snapshots").start()
+        ctx = run_shard(prop, tier, seed, i, n, on_ctx=snapshots)
         with open(out, "wb") as f:
             pickle.dump(ctx.dump(), f)
         return 0
@@ -286,6 +306,13 @@ def main(argv):
                 except subprocess.TimeoutExpired:
                     p.kill()
                     ctx.inconclusive(f"shard {i} timed out")
+                    if os.path.exists(out + ".partial"):
+                        try:
+                            with open(out + ".partial", "rb") as f:
+                                ctx.merge(pickle.load(f))
+                            ctx.inconclusive(f"shard {i}: only what it had observed up to its last snapshot is included")
+                        except Exception:
+                            pass
                     continue
                 if p.returncode != 0 or not os.path.exists(out):
                     ctx.inconclusive(f"shard {i} died rc={p.returncode}")
